@@ -531,6 +531,11 @@ class Interp(ExprMixin, StmtMixin):
                 return r
         deep_sym = any(sym(a) or (isinstance(a, (tuple, list)) and any(sym(x) for x in a)) for a in args) \
             or any(sym(v) for v in kwargs.values())
+        if deep_sym and getattr(f, "__self__", None) is not None and not isinstance(f.__self__, type(B)) and self.hooks.get("method"):
+            # a bound method of a host object (e.g. a compiled pattern's .search) applied to symbolic arguments
+            r = self.hooks["method"](self, path, f.__self__, name, args, kwargs)
+            if r is not _MISSING:
+                return r
         if not deep_sym:
             if f in self.safe_concrete or getattr(f, "__module__", "") in (
                     "builtins", "operator", "typing", "inspect", "dataclasses", "datetime", "decimal", "fractions", "uuid",
